@@ -277,7 +277,7 @@ def rule_stub(spec, param='in'):
         c = Contract()
         c.add(R(' && '.join(pre), 'stub-order-and-position', s.get('props_order', ('C01', 'C09'))))
         if s.get('A') is not None:
-            c.add(R('%d == %s' % (a, s['A']), 'stub-apply-mode', ('C04', 'C01')))
+            c.add(R('%d == %s' % (a, s['A']), 'stub-apply-mode', ('C04', 'C01', 'C13')))
         if s.get('M') is not None:
             c.add(R('%d == %s' % (m, s['M']), 'stub-rewind-mode', ('C02',)))
         if s.get('action') is not None or s.get('control') is not None:
